@@ -18,6 +18,10 @@ use std::thread::JoinHandle;
 use std::time::{Duration, Instant};
 use vh::*;
 
+// websocket client / server start of the C15 driver (read-only include)
+#[path = "c15/ws.rs"]
+mod ws;
+
 // the hasher type of adlt's lifecycle map (nohash) without naming the nohash crate
 trait HasherOf {
     type S;
@@ -30,6 +34,7 @@ type LcsW = evmap::WriteHandle<LifecycleId, LifecycleItem, (), LcS>;
 type LcsR = adlt::lifecycle::LcsRType;
 
 const RECV_TIMEOUT: Duration = Duration::from_secs(300); // hang detection only
+const STALL_BOUND: Duration = Duration::from_secs(120); // the same for the polling consumer styles
 const JOIN_BOUND: Duration = Duration::from_secs(120); // "every stage terminates": generous, the machine may be loaded
 
 /// harness-side plugin: drops messages of context "SKIP" (the stage function plugins_process_msgs is the code under test)
@@ -147,6 +152,8 @@ struct Pacing {
     p_each_us: u64,
     c_each_us: u64,
     drop_at: Option<usize>,
+    c_style: u8,         // 0 blocking recv, 1 loop of short recv_timeouts, 2 try_recv + sleep polling, 3 all in turn
+    c_poll_us: u64,      // sleep of the polling consumer (0 = 1 ms)
     poll_every: usize,   // the consumer polls the lifecycle table every poll_every messages (0 = every message)
     obs_sleep_us: u64,   // pacing of the observer thread (0 = 500 us)
 }
@@ -334,7 +341,40 @@ fn run_pipeline(spec: &PipeSpec, msgs: &[DltMessage], caps: &[usize], pacing: &P
             ended = Ended::Dropped(recv.len());
             break;
         }
-        match rx_opt.as_ref().unwrap().recv_timeout(RECV_TIMEOUT) {
+        // how this consumer waits for the next message: parked in a blocking receive, a loop of short recv_timeouts,
+        // or polling with try_recv + sleep (never parked; remote.rs drains its pipeline like that), or all of them in turn.
+        // The wait is bounded (no message and no end of stream for STALL_BOUND = a `stalled` event, data for the contract).
+        let style = if pacing.c_style == 3 { (recv.len() % 3) as u8 } else { pacing.c_style };
+        let rxr = rx_opt.as_ref().unwrap();
+        let got = match style {
+            0 => rxr.recv_timeout(RECV_TIMEOUT),
+            1 => {
+                let t0 = Instant::now();
+                loop {
+                    match rxr.recv_timeout(Duration::from_millis(3)) {
+                        Err(RecvTimeoutError::Timeout) if t0.elapsed() < STALL_BOUND => continue,
+                        r => break r,
+                    }
+                }
+            }
+            _ => {
+                let t0 = Instant::now();
+                let nap = Duration::from_micros(if pacing.c_poll_us == 0 { 1000 } else { pacing.c_poll_us });
+                loop {
+                    match rxr.try_recv() {
+                        Ok(m) => break Ok(m),
+                        Err(std::sync::mpsc::TryRecvError::Disconnected) => break Err(RecvTimeoutError::Disconnected),
+                        Err(std::sync::mpsc::TryRecvError::Empty) => {
+                            if t0.elapsed() >= STALL_BOUND {
+                                break Err(RecvTimeoutError::Timeout);
+                            }
+                            std::thread::sleep(nap);
+                        }
+                    }
+                }
+            }
+        };
+        match got {
             Ok(m) => {
                 let idx = if m.payload.len() >= 4 { u32::from_le_bytes(m.payload[0..4].try_into().unwrap()) as i64 } else { -1 };
                 recv.push((idx, m.lifecycle, msg_hash(&m)));
@@ -546,7 +586,7 @@ fn do_case(t: &mut Trace, st: &mut Stats, case: u64, spec: &PipeSpec, msgs: &[Dl
     let refv: Vec<Value> = r.recv.iter().map(|(i, l, h)| json!({"idx":i,"lc":l,"hash":h})).collect();
     t.ev(json!({"ev":"reset","case":case,"hdr":{"sorted":spec.sort,"stages":spec.stages(),"observers":["consumer","thread"],"late_ecu":msgs.iter().any(|m| m.ecu == char4("ECUD")),"ref":refv,"reftable":r.table.unwrap(),
         "caps":caps,"drop_at":pacing.drop_at.map(|x| x as i64).unwrap_or(-1),"n_in":msgs.len(),
-        "max_p_stall_ms":pacing.p_stalls.iter().map(|x| x.1).max().unwrap_or(0),"max_c_stall_ms":pacing.c_stalls.iter().map(|x| x.1).max().unwrap_or(0),
+        "c_style":pacing.c_style,"c_poll_us":pacing.c_poll_us,"max_p_stall_ms":pacing.p_stalls.iter().map(|x| x.1).max().unwrap_or(0),"max_c_stall_ms":pacing.c_stalls.iter().map(|x| x.1).max().unwrap_or(0),
         "spec":format!("{:?}", spec),"pacing":format!("{:?}", pacing),"info":info}}));
     let o = run_pipeline(spec, msgs, caps, pacing);
     // `pos` is only a search hint for TLC (where in the reference a message with this tag sits; 0 = nowhere); TLC verifies it
@@ -557,7 +597,7 @@ fn do_case(t: &mut Trace, st: &mut Stats, case: u64, spec: &PipeSpec, msgs: &[Dl
     match o.ended {
         Ended::Eos => t.ev(json!({"ev":"eos"})),
         Ended::Dropped(k) => t.ev(json!({"ev":"drop","after":k})),
-        Ended::RecvTimeout => t.ev(json!({"ev":"recv_timeout"})),
+        Ended::RecvTimeout => t.ev(json!({"ev":"stalled","after":o.recv.len(),"style":pacing.c_style})),
     }
     t.ev(json!({"ev":"full_hits","n":o.full_hits}));
     for (s, p) in &o.panics {
@@ -587,11 +627,241 @@ fn do_case(t: &mut Trace, st: &mut Stats, case: u64, spec: &PipeSpec, msgs: &[Dl
     o.timeouts.is_empty() && !matches!(o.ended, Ended::RecvTimeout)
 }
 
+// ------------------------------------------------------------------------------------------------ binary level
+// "When the consumer disappears, every stage terminates": the consumer of `adlt remote`'s pipeline is the websocket
+// client. Open a log, let the pipeline run into back-pressure (more messages than the bounded channels hold, nobody
+// taking them: paused / one_pass), drop the socket WITHOUT `close`, then watch the server's thread census
+// (/proc/<pid>/task) return to what it was before the connection, and check that a new connection can open a file.
+const REMOTE_CHANNEL_CAPACITY: u64 = 1024 * 1024 + 512 * 1024; // parser->lifecycle + lifecycle->consumer (remote.rs 2131/2132)
+const CENSUS_BOUND: Duration = Duration::from_secs(30);
+
+fn write_minimal_log(path: &str, n: usize) {
+    use std::io::Write;
+    let mut w = std::io::BufWriter::with_capacity(1 << 20, std::fs::File::create(path).expect("create log"));
+    for i in 0..n {
+        let m = DltMessage {
+            index: i as u32,
+            reception_time_us: BASE_US + 1_000_000 + i as u64 * 1000,
+            ecu: char4("ECUH"),
+            timestamp_dms: 10_000 + i as u32 * 10,
+            standard_header: adlt::dlt::DltStandardHeader { htyp: 0x20 | 0x10, mcnt: (i & 0xff) as u8, len: 0 },
+            extended_header: None,
+            payload: vec![],
+            payload_text: None,
+            lifecycle: 0,
+        };
+        m.to_write(&mut w).expect("write log");
+    }
+    w.flush().unwrap();
+}
+fn census(pid: u32) -> i64 {
+    std::fs::read_dir(format!("/proc/{}/task", pid)).map(|d| d.count() as i64).unwrap_or(-1)
+}
+fn cpu_ticks(pid: u32) -> u64 {
+    let s = std::fs::read_to_string(format!("/proc/{}/stat", pid)).unwrap_or_default();
+    // fields after the ")" of the command name: state is #3 ... utime #14, stime #15
+    let rest = s.rsplit_once(')').map(|x| x.1).unwrap_or("");
+    let f: Vec<&str> = rest.split_whitespace().collect();
+    f.get(11).and_then(|x| x.parse::<u64>().ok()).unwrap_or(0) + f.get(12).and_then(|x| x.parse::<u64>().ok()).unwrap_or(0)
+}
+/// wait until the server process burns no CPU any more (every pipeline thread parked or finished); returns (quiet reached, ms)
+fn wait_quiet(pid: u32, min_ms: u64, max_ms: u64) -> (bool, u64) {
+    let t0 = Instant::now();
+    let mut last = cpu_ticks(pid);
+    let mut same = 0;
+    loop {
+        std::thread::sleep(Duration::from_millis(250));
+        let now = cpu_ticks(pid);
+        same = if now == last { same + 1 } else { 0 };
+        last = now;
+        let el = t0.elapsed().as_millis() as u64;
+        if same >= 3 && el >= min_ms {
+            return (true, el);
+        }
+        if el >= max_ms {
+            return (false, el);
+        }
+    }
+}
+/// read frames until the reply to a command ("ok:" / "err:" text frame) arrives
+fn await_reply(c: &mut ws::Conn, wait: Duration) -> String {
+    let deadline = Instant::now() + wait;
+    loop {
+        match c.recv(deadline.saturating_duration_since(Instant::now()).max(Duration::from_millis(1))) {
+            ws::Frame::Text(t) if t.starts_with("ok:") || t.starts_with("err:") => return t.chars().take(80).collect(),
+            ws::Frame::Text(_) | ws::Frame::Bin(_) => {}
+            ws::Frame::Closed(e) => return format!("closed: {}", e),
+            ws::Frame::Timeout => return "timeout".to_string(),
+        }
+        if Instant::now() >= deadline {
+            return "timeout".to_string();
+        }
+    }
+}
+
+fn remote_drop_case(t: &mut Trace, case: u64, adlt_bin: &str, work: &str, shape: &str, log_path: &str, n_msgs: u64, small_path: &str) {
+    use std::io::Write;
+    let mut server = ws::Server::start(adlt_bin, work, &format!("c13-{}", case), None);
+    let pid = server.child.id();
+    // a first complete session, so that lazily created process-wide threads (if any) exist before the baseline is taken
+    let mut warm_ok = false;
+    if let Ok(mut c) = ws::Conn::connect(server.port, Duration::from_secs(20)) {
+        let _ = c.send(&format!("open {}", json!({"files":[small_path]})));
+        warm_ok = await_reply(&mut c, Duration::from_secs(30)).starts_with("ok:");
+        let _ = c.send("close");
+        let _ = await_reply(&mut c, Duration::from_secs(30));
+        c.close();
+    }
+    let _ = wait_quiet(pid, 500, 10_000);
+    let t0 = Instant::now();
+    let mut threads_before = census(pid);
+    while t0.elapsed() < Duration::from_secs(10) {
+        std::thread::sleep(Duration::from_millis(100));
+        let c2 = census(pid);
+        if c2 == threads_before {
+            break;
+        }
+        threads_before = c2;
+    }
+    t.ev(json!({"ev":"reset","case":case,"hdr":{"kind":"remote_drop","shape":shape,"file_msgs":n_msgs,"channel_capacity":REMOTE_CHANNEL_CAPACITY,
+        "warmup_ok":warm_ok}}));
+    let mut open_reply = String::new();
+    let (mut parked, mut quiet_ms) = (false, 0u64);
+    let mut threads_during = -1;
+    match ws::Conn::connect(server.port, Duration::from_secs(20)) {
+        Ok(mut c) => {
+            let onepass = shape != "paused_parked" && shape != "control_small" && shape != "while_streaming";
+            let arg = if onepass { json!({"collect":"one_pass_streams","files":[log_path]}) } else { json!({"files":[log_path]}) };
+            let _ = c.send(&format!("open {}", arg));
+            open_reply = await_reply(&mut c, Duration::from_secs(60));
+            match shape {
+                "while_parsing" => std::thread::sleep(Duration::from_millis(150)),
+                "while_streaming" => {
+                    let _ = c.send(&format!("stream {}", json!({"window":[0,2000000],"binary":true})));
+                    let t1 = Instant::now();
+                    while t1.elapsed() < Duration::from_millis(700) {
+                        let _ = c.recv(Duration::from_millis(50)); // take some frames, then vanish
+                    }
+                }
+                _ => {
+                    if shape == "paused_parked" {
+                        let _ = c.send("pause");
+                        let _ = await_reply(&mut c, Duration::from_secs(30));
+                    }
+                    let r = wait_quiet(pid, 1500, 90_000);
+                    parked = r.0;
+                    quiet_ms = r.1;
+                }
+            }
+            threads_during = census(pid);
+            if shape == "mid_frame" {
+                // the beginning of a masked text frame announcing 126 bytes, then nothing
+                let _ = c.ws.get_mut().write_all(&[0x81, 0xFE, 0x00, 0x7E, 1, 2, 3, 4, b'o', b'p']);
+                let _ = c.ws.get_mut().flush();
+            }
+            // vanish: no close command, no websocket close frame
+            let _ = c.ws.get_mut().shutdown(std::net::Shutdown::Both);
+            drop(c);
+        }
+        Err(e) => open_reply = format!("connect failed: {}", e),
+    }
+    let t1 = Instant::now();
+    let mut threads_after = census(pid);
+    while threads_after != threads_before && t1.elapsed() < CENSUS_BOUND {
+        std::thread::sleep(Duration::from_millis(50));
+        threads_after = census(pid);
+    }
+    let waited_ms = t1.elapsed().as_millis() as u64;
+    if let Some(st) = server.exited() {
+        t.ev(json!({"ev":"server_exit","status":st}));
+    }
+    t.ev(json!({"ev":"census","threads_before":threads_before,"threads_during":threads_during,"threads_after":threads_after,"waited_ms":waited_ms,
+        "parked":parked,"quiet_after_ms":quiet_ms,"open_reply":open_reply}));
+    // the server still serves: a new connection opens a file
+    let mut reopen = "no connection".to_string();
+    if let Ok(mut c) = ws::Conn::connect(server.port, Duration::from_secs(10)) {
+        let _ = c.send(&format!("open {}", json!({"files":[small_path]})));
+        reopen = await_reply(&mut c, Duration::from_secs(30));
+        let _ = c.send("close");
+        let _ = await_reply(&mut c, Duration::from_secs(30));
+        c.close();
+    }
+    t.ev(json!({"ev":"reopen","ok":reopen.starts_with("ok:"),"reply":reopen}));
+    t.ev(json!({"ev":"end"}));
+    server.stop();
+}
+
+fn remote_drop_main(a: &Args) {
+    let mut t = Trace::create(&a.str("--out", "trace-remote.ndjson"));
+    let adlt_bin = a.str("--adlt", "");
+    let work = a.str("--work", ".");
+    let first = a.num("--first-case", 1_000_000);
+    let n_huge = a.num("--huge", 1_700_000);
+    let dir = format!("{}/remote-files", work);
+    std::fs::create_dir_all(&dir).unwrap();
+    let huge = format!("{}/huge.dlt", dir);
+    let small = format!("{}/small.dlt", dir);
+    write_minimal_log(&huge, n_huge as usize);
+    write_minimal_log(&small, 20_000);
+    // a normally opened file is drained by the connection thread until `pause` takes effect: that shape needs a longer log
+    let huge2 = format!("{}/huge2.dlt", dir);
+    let n_huge2 = 2 * n_huge + 200_000;
+    if a.str("--remote-drop", "").contains("paused_parked") {
+        write_minimal_log(&huge2, n_huge2 as usize);
+    }
+    let shapes: Vec<&str> = a.str("--remote-drop", "onepass_parked,control_small").split(',').map(|s| match s {
+        "onepass_parked" => "onepass_parked",
+        "paused_parked" => "paused_parked",
+        "while_parsing" => "while_parsing",
+        "while_streaming" => "while_streaming",
+        "mid_frame" => "mid_frame",
+        _ => "control_small",
+    }).collect();
+    // the cases are independent server processes: run them in parallel threads, write their events one case after the other
+    let results: Vec<Vec<Value>> = std::thread::scope(|sc| {
+        let hs: Vec<_> = shapes
+            .iter()
+            .enumerate()
+            .map(|(i, shape)| {
+                let (adlt_bin, work, huge, small, huge2) = (adlt_bin.clone(), work.clone(), huge.clone(), small.clone(), huge2.clone());
+                sc.spawn(move || {
+                    let tmp = format!("{}/remote-case-{}.ndjson", work, i);
+                    let mut tt = Trace::create(&tmp);
+                    let (p, n) = match *shape {
+                        "control_small" => (small.clone(), 20_000),
+                        "paused_parked" => (huge2.clone(), n_huge2),
+                        _ => (huge.clone(), n_huge),
+                    };
+                    remote_drop_case(&mut tt, first + i as u64, &adlt_bin, &work, shape, &p, n, &small);
+                    tt.flush();
+                    let v = read_ndjson(&tmp);
+                    let _ = std::fs::remove_file(&tmp);
+                    v
+                })
+            })
+            .collect();
+        hs.into_iter().map(|h| h.join().unwrap_or_default()).collect()
+    });
+    for evs in results {
+        for e in evs {
+            t.ev(e);
+        }
+    }
+    t.flush();
+    let _ = std::fs::remove_file(&huge);
+    let _ = std::fs::remove_file(&huge2);
+    println!("{}", json!({"cases": shapes.len(), "lines": t.lines}));
+}
+
 fn main() {
     if std::env::var("VERIF_LOUD").is_err() {
         quiet_panics();
     }
     let a = Args::from_env();
+    if a.has("--remote-drop") {
+        remote_drop_main(&a);
+        return;
+    }
     let mut t = Trace::create(&a.str("--out", "trace.ndjson"));
     let seed = a.num("--seed", 1);
     let shard = a.num("--shard", 0);
@@ -631,6 +901,18 @@ fn main() {
             let nm = scn["nmsgs"].as_u64().unwrap().max(1) as usize;
             let nout = scn["nout"].as_u64().unwrap().max(1) as usize;
             let mut pacing = Pacing { poll_every: *rng2.pick(&[1usize, 1, 3, 7]), obs_sleep_us: *rng2.pick(&[200u64, 500, 3000]), ..Default::default() };
+            // consumer style: the model's choice ("block" / "poll") refined by the seed (which blocking / polling variant)
+            match scn["cstyle"].as_str() {
+                Some("poll") => {
+                    pacing.c_style = if rng2.chance(1, 5) { 3 } else { 2 };
+                    pacing.c_poll_us = *rng2.pick(&[200u64, 1000, 10_000]);
+                }
+                Some("block") => pacing.c_style = rng2.below(2) as u8,
+                _ => {
+                    pacing.c_style = *rng2.pick(&[0u8, 0, 1, 2, 2, 3]);
+                    pacing.c_poll_us = *rng2.pick(&[200u64, 1000, 10_000]);
+                }
+            }
             let ps = scn["pstall"].as_u64().unwrap_or(0) as usize;
             if ps > 0 {
                 pacing.p_stalls.push(((ps - 1) * msgs.len() / nm, 40));
@@ -673,6 +955,8 @@ fn main() {
         let small = rng.chance(2, 3); // mostly the capacities where the Full branch is the normal case
         let caps: Vec<usize> = (0..spec.nchan()).map(|_| if small { *rng.pick(&cap_alphabet[0..3]) } else { *rng.pick(&cap_alphabet) }).collect();
         let mut pacing = Pacing { poll_every: *rng2.pick(&[1usize, 1, 3, 7]), obs_sleep_us: *rng2.pick(&[200u64, 500, 3000]), ..Default::default() };
+        pacing.c_style = *rng2.pick(&[0u8, 0, 1, 2, 2, 3]);
+        pacing.c_poll_us = *rng2.pick(&[200u64, 1000, 10_000]);
         for _ in 0..rng.below(4) {
             pacing.p_stalls.push((rng.below(n.max(1) as u64) as usize, rng.range(5, 60)));
         }
@@ -733,6 +1017,8 @@ fn main() {
         }
         let caps: Vec<usize> = (0..spec.nchan()).map(|_| *rng.pick(&cap_alphabet[0..3])).collect();
         let mut pacing = Pacing { poll_every: *rng2.pick(&[1usize, 3]), obs_sleep_us: *rng2.pick(&[200u64, 3000]), ..Default::default() };
+        pacing.c_style = (r % 4) as u8;
+        pacing.c_poll_us = *rng2.pick(&[1000u64, 10_000]);
         let at = rng.range((n / 4) as u64, (3 * n / 4) as u64) as usize;
         match variant {
             2 => pacing.c_stalls.push((at.max(1) / 2 + 1, rng.range(2600, 3200))),
